@@ -62,6 +62,11 @@ def gen_class(rng, name, bases=(), n_methods=4, overload_heavy=False, other_type
         out.append("  enum E%s { E%s_a, E%s_b = %d };" % (name, name, name, rng.range(2, 50)))
     if rng.chance(1, 4):
         out.append("  int field_%s;" % name.lower())
+    if rng.chance(1, 4):
+        # bit-fields: a literal width, and one the parser cannot evaluate (member of a template that is only declared)
+        out.append("  int bits_%s : %d;" % (name.lower(), rng.range(1, 9)))
+        if rng.chance(1, 2):
+            out.append("  unsigned wide_%s : HdrGenTraits<%s>::length_bits;" % (name.lower(), name))
     out.append("};")
     return "\n".join(out) + "\n"
 
@@ -73,6 +78,7 @@ def gen_header(rng, prefix, n_classes, overload_heavy=True, n_macros=3, n_funcs=
     out = ["#ifndef %s" % guard, "#define %s" % guard]
     for inc in includes:
         out.append('#include "%s"' % inc)
+    out.append("template<class T> struct HdrGenTraits;")
     for i in range(n_macros):
         kind = rng.below(4)
         if kind == 0:
@@ -97,7 +103,9 @@ def gen_header(rng, prefix, n_classes, overload_heavy=True, n_macros=3, n_funcs=
     for i, t in enumerate(ext_typedefs):
         out.append("typedef %s %s_T%d;" % (t, prefix.capitalize(), i))
     if n_funcs:
+        out.append("#define %s_ORIGIN(f) f" % prefix.upper())
         out.append("__published:")
+        out.append("const char *%s_where(const char *file = %s_ORIGIN(__FILE__), int line = __LINE__, const char *direct = __FILE__);" % (prefix, prefix.upper()))
         for f in range(n_funcs):
             out.append("int %s_f%d(int a, double b = 1.5);" % (prefix, f))
         out.append("extern int %s_var;" % prefix)
